@@ -42,7 +42,7 @@ import pyref as R  # noqa: E402
 INTERNAL_SKS = (3, 11, R.b2i(hashlib.sha256(b"C06/internal/1").digest()) % R.N_ORDER)   # 11: odd-Y point (negated in the seckey tweak)
 PREFIXES = ((None, "bcrt"), ("--addrprefix=tb", "tb"), ("-pbc", "bc"), ("--addrprefix=bcrt", "bcrt"))
 SWEEP_PATTERNS = ("distinct", "equal", "alt", "spelled", "emptyleaf", "zeroprefix")   # zeroprefix: sibling leaf hashes that both start with a zero byte, in both orders   # spelled: leaves given as bracketed text with an inline function (same bytes as their hex form); emptyleaf: leaf 0 is the empty script
-RT_PATTERNS = ("csig", "csigarg")             # leaves <pk_i> OP_CHECKSIG  /  OP_DROP <pk_i> OP_CHECKSIG with one spend argument
+RT_PATTERNS = ("csig", "csigarg", "csep")             # leaves <pk_i> OP_CHECKSIG  /  OP_DROP <pk_i> OP_CHECKSIG with one spend argument
 PLACEHOLDER = bytes(range(16)) * 4
 SPEND_ARG = "0x2a"
 TIMEOUT = 60
@@ -149,6 +149,9 @@ def scripts_for(pattern, n):
         return [b"\x20" + leaf_pk(i) + b"\xac" for i in range(n)]
     if pattern == "csigarg":
         return [b"\x75\x20" + leaf_pk(i) + b"\xac" for i in range(n)]
+    if pattern == "csep":
+        # OP_CODESEPARATOR <pk_i> OP_CHECKSIG: the separator is executed, so BIP342 signs its position (opcode index 0), not 0xffffffff
+        return [b"\xab\x20" + leaf_pk(i) + b"\xac" for i in range(n)]
     raise ValueError(pattern)
 
 
@@ -546,21 +549,23 @@ class Group:
                 if tw and tw[1] == self.Q and (m.group(2) is None) != (tw[0] == 0):
                     self.v("pty-parity-log-wrong", "log says '%seven' but output key parity is %d" % (m.group(2) or "", tw[0]), i)
             m = RE_SIGHASH.search(log)
-            ref = R.taproot_sighash(tx, 0, [self.prev], 0, leaf_hash=R.tapleaf_hash(script))
+            csp = 0 if self.pattern == "csep" else 0xFFFFFFFF     # position of the last executed OP_CODESEPARATOR when the check runs
+            sfx = ":executed-codeseparator" if self.pattern == "csep" else ""
+            ref = R.taproot_sighash(tx, 0, [self.prev], 0, leaf_hash=R.tapleaf_hash(script), codesep_pos=csp)
             if not m:
                 self.v("sighash-missing:scriptpath", "no 'sighash (little endian)' line in the pty log", i, log[-300:])
             else:
                 st["sighash_cmp"] += 1
                 sigh = bytes.fromhex(m.group(1))
                 if sigh != ref:
-                    self.v("sighash-mismatch:scriptpath", "tap reports %s, BIP341/342 script-path digest of the emitted transaction is %s" % (m.group(1), ref.hex()), i, txh)
+                    self.v("sighash-mismatch:scriptpath" + sfx, "tap reports %s, BIP341/342 script-path digest of the emitted transaction is %s" % (m.group(1), ref.hex()), i, txh)
             if len(self.samples) < 4 and i == self.n - 1 and m:
                 self.samples.append({"cmd": cmd_str(cmdt), "stdout": short(pt.out.strip(), 700), "control_line": short(RE_CTL.search(log).group(0), 300) if RE_CTL.search(log) else None,
                                      "sighash_line": m.group(0), "reference_digest": ref.hex(),
                                      "btcdeb_cmd": cmd_str(cmdb), "btcdeb_exit": pb.rc, "btcdeb_stdout": short(pb.out.strip(), 200), "btcdeb_stderr": short(pb.err.strip(), 200)})
         # (e) script-path round trip
         if self.is_rt:
-            digest = sigh if sigh is not None else R.taproot_sighash(tx, 0, [self.prev], 0, leaf_hash=R.tapleaf_hash(script))
+            digest = sigh if sigh is not None else R.taproot_sighash(tx, 0, [self.prev], 0, leaf_hash=R.tapleaf_hash(script), codesep_pos=0 if self.pattern == "csep" else 0xFFFFFFFF)
             sig = R.schnorr_sign(digest, leaf_sk(i), hashlib.sha256(b"C06/aux").digest())
             p2, cmd2, ok2 = self.run_tap(["--sig=" + sig.hex()] + self.txopts, tail, index=i, mode="index-tx-sig")
             if ok2:
@@ -577,10 +582,44 @@ class Group:
                     elif cls2.startswith("signal="):
                         self.v("tool-crash:%s:btcdeb" % cls2, "btcdeb crashed on the signed script-path spend", i, cmd_str(cmdb2))
                     else:
-                        self.v("roundtrip-fails:scriptpath:n=%d:index=%d" % (n, i), "signature over tap's sighash passed back with --sig: btcdeb says %s" % cls2, i, cmd_str(cmdb2) + " stderr: " + pb2.err[-200:])
+                        self.v(("roundtrip-fails:scriptpath:executed-codeseparator" if self.pattern == "csep" else "roundtrip-fails:scriptpath:n=%d:index=%d" % (n, i)), "signature over tap's sighash passed back with --sig: btcdeb says %s" % cls2, i, cmd_str(cmdb2) + " stderr: " + pb2.err[-200:])
                     if len(self.samples) < 5 and i == self.n - 1:
                         self.samples.append({"cmd": cmd_str(cmd2), "stdout": short(p2.out.strip(), 700), "btcdeb_cmd": cmd_str(cmdb2), "btcdeb_exit": pb2.rc, "btcdeb_stdout": pb2.out.strip()[:100]})
         return True
+
+    # -- refusals: the output being spent does not pay to this tree (another output key, the untweaked internal key, or the spend refers to
+    #    another output of the funding transaction): tap must refuse (non-zero exit, no transaction printed) - key path and script path alike
+    def mismatch_refusals(self):
+        n = self.n
+        vout = n % 2
+        variants = []
+        otherq = hashlib.sha256(b"C06/otherkey/%d" % n).digest()
+        while R.lift_x(R.b2i(otherq)) is None:
+            otherq = hashlib.sha256(otherq).digest()
+        variants.append(("output pays to another key", otherq, vout))
+        variants.append(("output pays to the untweaked internal key", self.K, vout))
+        variants.append(("the spend refers to the other output of the funding transaction", self.Q, 1 - vout))
+        for (what, q, spent) in variants:
+            outs = [R.TxOut(5000 + n, b"\x00\x14" + bytes([0x22]) * 20), R.TxOut(5000 + n, b"\x00\x14" + bytes([0x22]) * 20)]
+            outs[vout] = R.TxOut(100000 + n, R.p2tr_spk(q))
+            if spent != vout:
+                outs[spent] = R.TxOut(7000 + n, R.p2tr_spk(otherq))
+            fund = R.Tx(2, [R.TxIn(hashlib.sha256(b"C06/prev/%d" % n).digest(), n % 3, b"", 0xFFFFFFFE)], outs, 0)
+            spend = R.Tx(2, [R.TxIn(fund.txid(), spent, b"", 0xFFFFFFFD)], [R.TxOut(90000 + n, b"\x00\x14" + bytes([0x33]) * 20)], n)
+            opts = ["--tx=" + spend.serialize().hex(), "--txin=" + fund.serialize().hex()]
+            for (mode, tail) in (("keypath", []), ("scriptpath", None)):
+                if tail is None:
+                    if not self.job["indices"]:
+                        continue
+                    tail = [str(self.job["indices"][0])] + (self.args if hasattr(self, "args") else [])
+                cmd = [self.tap] + self.popt + opts + self.ident + tail
+                self.inv["tap"] += 1
+                p = run_pipe(cmd, self.cwd)
+                self.stats["mismatch_refusals"] = self.stats.get("mismatch_refusals", 0) + 1
+                if p.timeout or p.rc < 0:
+                    self.v("tool-crash-or-timeout:tap:mismatch", "tap died or hung on a funding output that does not pay to the tree", None, cmd_str(cmd))
+                elif p.rc == 0 or RE_TX.findall(p.out):
+                    self.v("mismatch-not-refused:%s" % mode, "%s (%s spend): tap exits %d and %s a transaction instead of refusing" % (what, mode, p.rc, "prints" if RE_TX.findall(p.out) else "does not print"), None, cmd_str(cmd))
 
     # -- key-path round trip (reference computes the tweaked secret key)
     def keypath_roundtrip(self):
@@ -620,6 +659,8 @@ class Group:
                 self.index_case(i)
             if keypath and self.job["indices"]:
                 self.keypath_roundtrip()
+            if keypath and self.n <= 4 and self.job["pattern"] in ("distinct", "csig") and self.job["pi"] == 0:
+                self.mismatch_refusals()
         return dict(job=self.job, viol=self.viol, inv=self.inv, stats=self.stats, samples=self.samples, addr=self.addr,
                     Q=self.Q.hex() if self.Q else None)
 
